@@ -66,11 +66,26 @@ impl C15 {
 		is_coinbase: bool,
 		status: &str,
 		what: &str,
+		named_key: Option<&str>,
 	) -> Option<Violation> {
 		let commit = commit.unwrap_or_else(|| format!("value:{}", value));
 		let stepno = run.trace.len().saturating_sub(1);
+		// a coinbase built for a request that names no key is a new assignment: its
+		// path must never have been used, not even for an equal commitment
+		let fresh_assignment = what == "mine" && is_coinbase && status == "Unconfirmed" && named_key.is_none();
 		let e = self.uses.entry((w, key_id.to_owned())).or_default();
 		if let Some(u) = e.iter_mut().find(|u| u.commit == commit) {
+			if fresh_assignment {
+				let (pw, ps) = (u.what.clone(), u.step);
+				return Some(run.viol(
+					"unique_paths",
+					"path_reused:mine:same_commitment",
+					format!(
+						"wallet {}: key path {} was assigned to a coinbase ({} at step {}) and assigned again to a new coinbase with the same value",
+						w, key_id, pw, ps
+					),
+				));
+			}
 			u.last_status = status.to_owned();
 			return None;
 		}
@@ -85,7 +100,7 @@ impl C15 {
 		});
 		if let Some(p) = prev {
 			// the one exception: a coinbase re-request naming the still-unconfirmed candidate
-			if is_coinbase && p.is_coinbase && p.last_status == "Unconfirmed" {
+			if named_key == Some(key_id) && is_coinbase && p.is_coinbase && p.last_status == "Unconfirmed" {
 				run.cov.probe("coinbase_candidate_replaced");
 				return None;
 			}
@@ -108,12 +123,42 @@ impl Prop for C15 {
 	}
 
 	fn custom(&mut self, ex: &mut Exec, name: &str, a: &Value) -> OpRes {
-		if name != "build_output" {
+		if name != "build_output" && name != "cb_rerequest" {
 			return OpRes::Skipped("unknown".into());
 		}
 		let w = a["w"].as_u64().unwrap_or(0) as usize;
 		if w >= ex.world.wallets.len() || !ex.world.is_open(w) {
 			return OpRes::Skipped("unavailable".into());
+		}
+		if name == "cb_rerequest" {
+			// a mining node asks again for a coinbase and names the key of an output the
+			// wallet already holds (any output: only an unconfirmed coinbase candidate
+			// may be replaced under its key)
+			let snap = ex.world.snap(w);
+			if snap.outputs.is_empty() {
+				return OpRes::Skipped("no outputs".into());
+			}
+			let o = &snap.outputs[(a["pick"].as_u64().unwrap_or(0) as usize) % snap.outputs.len()];
+			let bf = grin_wallet_libwallet::BlockFees {
+				fees: a["fees"].as_u64().unwrap_or(0),
+				height: ex.world.chain.height() + 1,
+				key_id: Some(o.key_id.clone()),
+			};
+			return match ex.world.foreign(w).build_coinbase(&bf) {
+				Ok(cb) => OpRes::Ok {
+					new_msg: None,
+					note: format!(
+						"{}|{}|{}|{}",
+						o.key_id.to_hex(),
+						cb.key_id.map(|k| k.to_hex()).unwrap_or_default(),
+						o.is_coinbase,
+						o.status
+					),
+					validated: None,
+					new_wallet: None,
+				},
+				Err(e) => OpRes::Err(format!("{}", e)),
+			};
 		}
 		let amount = a["amount"].as_u64().unwrap_or(1);
 		match ex
@@ -137,6 +182,15 @@ impl Prop for C15 {
 		}
 		if self.gen.setup_done {
 			let nw = run.ex.world.wallets.len();
+			if run.rng.chance(1, 25) && nw > 0 {
+				let w = run.rng.idx(nw);
+				if !self.retired.contains(&w) {
+					return Some(Step::new(Op::Custom {
+						name: "cb_rerequest".into(),
+						args: json!({"w": w, "pick": run.rng.below(1000), "fees": run.rng.below(3) * 1_000_000}),
+					}));
+				}
+			}
 			if run.rng.chance(1, 14) && nw > 0 {
 				let mut st = Step::new(Op::Custom {
 					name: "build_output".into(),
@@ -192,6 +246,11 @@ impl Prop for C15 {
 				}
 			}
 		}
+		// a coinbase re-request names a key (custom op cb_rerequest)
+		let named: Option<String> = match &step.op {
+			Op::Custom { name, .. } if name == "cb_rerequest" && out.ok => out.note.split('|').next().map(|x| x.to_owned()),
+			_ => None,
+		};
 		if let Some(w) = w {
 			// a wallet restored from the same seed legitimately re-finds the same paths:
 			// its records are compared within itself only
@@ -215,6 +274,7 @@ impl Prop for C15 {
 					s.is_coinbase,
 					&s.status,
 					step.kind(),
+					named.as_deref(),
 				) {
 					v.push(x);
 					return v;
@@ -234,6 +294,7 @@ impl Prop for C15 {
 							false,
 							"Built",
 							"build_output",
+							None,
 						) {
 							v.push(x);
 							return v;
